@@ -23,7 +23,7 @@ from ..ref import c18lang as L
 ID = "C18"
 LEVEL_RULE = (
     "expression descriptors enumerated by level, simplest first.  'core' alphabet (4 leaves, neg/sum/getslice, "
-    "sub/truediv/add, binary contraction, tuples): every term of depth <= 2, no pruning (so every shared-subterm DAG "
+    "sub/truediv, contraction, tuples): every term of depth <= 2, no pruning (so every shared-subterm DAG "
     "shape of that depth occurs).  'wide'/'full' alphabet (all ops of the fragment): level 1 complete over the leaf "
     "alphabet; level n+1 = every constructor of the light alphabet applied to >=1 operand from the level-n pool and "
     "operands from the companion pool (leaves + first level-1 term per (root op, output shape)); the level-n pool is "
@@ -48,6 +48,14 @@ ASSUMPTIONS = [
 ]
 
 FILLS = 2
+# Sites of the defects of the unchanged tree.  Their violations carry exactly these features (one signature per
+# defect), so that thousands of reproductions cannot crowd a new violation out of the report.
+KNOWN_SITE_FEATURES = {
+    "as_code:array-constant": {"has_array_constant": True},
+    "as_code:input-name-capture": {"input_names_shadow_locals": True},
+    "trace_function:root-is-leaf": {"root_is_leaf_but_not_last_slot": True},
+    "trace_function:op-kwargs": {"has_keyword_op_parameter": True},
+}
 _SHADOW = re.compile(r"^(v\d+|ops|set_backend)$")
 
 
@@ -132,14 +140,14 @@ def expressions(tier):
     w1 += L._dedup([("con", op, (x, y, z)) for op in al["con"] for x in reals0[:4] for y in reals0[:4] for z in reals0[:4]], seen)
     wt1 = L._dedup(_tuples(w0, [(w0[0], w0[1], w0[2]), (w0[3], w0[0], w0[3])]), seen)
     pool1 = L.prune(w1, L.key_op_inputs_shape if thorough else L.key_op_shape)
-    comp1 = w0 + L.prune(w1, L.key_op_shape if thorough else L.key_kind_shape)
+    comp1 = w0 + L.prune(w1, L.key_kind_shape)
     w2 = L.level_up(pool1, comp1, lt, seen)
     wide_terms = w0 + w1 + wt1 + w2
     stats["wide_levels"] = [len(w0), len(w1) + len(wt1), len(w2)]
     stats["wide_level1_pool"] = len(pool1)
     stats["wide_companion1"] = len(comp1)
     if thorough:
-        pool2 = L.prune(w2, L.key_op_inputs_shape)
+        pool2 = L.prune(w2, L.key_op_shape)
         comp2 = w0 + L.prune(w1, L.key_kind_shape)
         w3 = L.level_up(pool2, comp2, lt, seen, nary=False)
         wt3 = L._dedup(_tuples(L.prune(w2, L.key_op_shape)[:40], []), seen)
@@ -169,7 +177,7 @@ def trace_variants(e):
         return []
     subs = L.postorder(e)
     has_arr = any(s[0] == "ten" for s in subs)
-    has_param = any((s[0] == "u" and s[2] is not None) or (s[0] == "b" and isinstance(s[1], tuple) and s[1][1]) for s in subs)
+    has_param = any((s[0] == "u" and s[2] is not None and s[1] != "reshape") or (s[0] == "b" and isinstance(s[1], tuple) and s[1][1]) for s in subs)
     names = tuple(ins)
     base = ("inst", "left", 0, names, 1 if has_arr else 0)
     out = [base]
@@ -201,13 +209,33 @@ def _rename_cases(tier):
     return [("names", e, m) for e in es for m in maps]
 
 
+def _trace_key(e):
+    return (L.key_op_inputs_shape(e), L.has_shared_op(e), tuple(sorted(set(s[0] for s in L.postorder(e) if s[0] in ("num", "numi", "ten")))))
+
+
 def cases(tier):
+    """compile cases for every expression; trace cases: the base variant for every eligible expression, the
+    deviations for the first expression per (root op, parameter, input names, output shape, shared-subterm bit,
+    kinds of constants)."""
     es = expressions(tier)
     out = [("expr", e) for e in es]
+    seen = set()
+    n_base = n_dev = 0
     for e in es:
-        for v in trace_variants(e):
+        vs = trace_variants(e)
+        if not vs:
+            continue
+        out.append(("trace", e) + vs[0])
+        n_base += 1
+        k = _trace_key(e)
+        if k in seen:
+            continue
+        seen.add(k)
+        for v in vs[1:]:
             out.append(("trace", e) + v)
+            n_dev += 1
     out += _rename_cases(tier)
+    _CORPUS_STATS[tier].update(trace_base_cases=n_base, trace_deviation_cases=n_dev, compile_cases=len(es))
     return out
 
 
@@ -603,8 +631,9 @@ def check_expr(case, seed):
         leaf = {rn.get(s[1], s[1]): s for s in ins}
         for env, ref in pts:
             try:
-                sub = expr(**{k: to_subs(leaf[k], v) for k, v in env.items()}) if env else expr
-                if not env:
+                if env:
+                    sub = expr(**{k: to_subs(leaf[k], v) for k, v in env.items()})
+                else:
                     from funsor.interpreter import reinterpret
 
                     sub = reinterpret(expr)
@@ -628,6 +657,7 @@ def check_expr(case, seed):
     except Found as f:
         feats.update(f.extra)
         feats["route"] = f.route
+        feats = KNOWN_SITE_FEATURES.get(f.site, feats)
         inv = {v: k for k, v in rn.items()}
         env = {inv.get(k, k): v for k, v in (f.env or {}).items()}
         return core.violation(
@@ -659,6 +689,7 @@ def fn_source(e, style, order, dead, kw):
     """Python source of ``def fn(<kwargs>)`` evaluating descriptor ``e`` with funsor.ops, and its constants."""
     consts = {}
     names = {}
+    used_kw = [False]
     lines = ["def fn(%s):" % ", ".join(s[1] for s in kw)]
 
     def visit(s, seen, out):
@@ -706,18 +737,18 @@ def fn_source(e, style, order, dead, kw):
             else:
                 if op == "sum":
                     cls, fnname, argname, par = "ops.SumOp", "ops.sum", "axis", repr(p)
-                elif op == "reshape":
-                    cls, fnname, argname, par = "ops.ReshapeOp", "type(ops.ReshapeOp((1,)))((1,)).__class__", "shape", repr(tuple(p))
-                    fnname = "RESHAPE"
+                elif op == "reshape":  # funsor.ops does not export the reshape instance, only its class
+                    cls, fnname, argname, par = "ops.ReshapeOp", "RESHAPE", "shape", repr(tuple(p))
                 else:
                     cls, fnname, argname, par = "ops.GetsliceOp", "ops.getslice", "index", L._index_code(p)
                 if p is None:
                     rhs = "%s(%s)" % (fnname, x)
-                elif style == "inst":
+                elif style == "inst" or op == "reshape":  # funsor.ops exports ReshapeOp but no reshape instance
                     rhs = "%s(%s)(%s)" % (cls, par, x)
                 elif style == "pos":
                     rhs = "%s(%s, %s)" % (fnname, x, par)
                 else:
+                    used_kw[0] = True
                     rhs = "%s(%s, %s=%s)" % (fnname, x, argname, par)
         elif t == "b":
             x, y = names[s[2]], names[s[3]]
@@ -730,6 +761,7 @@ def fn_source(e, style, order, dead, kw):
                 elif style == "pos":
                     rhs = "ops.getitem(%s, %s, %d)" % (x, y, op[1])
                 else:
+                    used_kw[0] = True
                     rhs = "ops.getitem(%s, %s, offset=%d)" % (x, y, op[1])
             else:
                 rhs = "ops.%s(%s, %s)" % (op, x, y)
@@ -744,7 +776,7 @@ def fn_source(e, style, order, dead, kw):
         if dead and n_emitted == 1:
             emit_dead()
     lines.append("    return %s" % names[e])
-    return "\n".join(lines), consts
+    return "\n".join(lines), consts, used_kw[0]
 
 
 def check_trace(case, seed):
@@ -769,18 +801,17 @@ def check_trace(case, seed):
     pts = reference_points(e, envs, seed, counters)
     if not pts:
         return core.skip(key, "reference-undefined-at-every-binding")
-    src, consts = fn_source(e, style, order, dead, kw)
-    feats["has_keyword_op_parameter"] = style == "kw" and ("=" in src.split(":", 1)[1].replace(" = ", " "))
+    src, consts, used_kw = fn_source(e, style, order, dead, kw)
+    feats["has_keyword_op_parameter"] = used_kw
     import funsor.ops as ops
-    import funsor.ops.array
     from funsor.ops.tracer import trace_function
 
     cvals = {k: L.const_value(s, seed) for k, s in consts.items()}
-    ns = {"ops": ops, "np": np, "RESHAPE": funsor.ops.array.reshape}
+    ns = {"ops": ops, "np": np}
     ns.update(cvals)
     exec(src, ns)
     fn = ns["fn"]
-    snip_src = "RESHAPE = __import__('funsor.ops.array').ops.array.reshape\n" + src
+    snip_src = src
 
     def snip(f):
         return snippet_trace(snip_src, cvals, kw, f.env or envs[0], f.ref, allow, f.route)
@@ -805,20 +836,23 @@ def check_trace(case, seed):
             return core.ok(key, True, "trace:array-constant-refused", transitions=1, counters=counters)
         return core.decline(key, "trace:" + type(ex).__name__, counters=counters)
     nops = len(program.operations)
-    if feats["root_is_input"] or feats["root_is_constant"]:
-        prefix = "trace_function:root-is-leaf:"
-    elif feats["has_keyword_op_parameter"]:
-        prefix = "trace_function:op-kwargs:"
-    else:
-        prefix = "trace_function:"
+    # the two places where a failure is attributed to a narrower site than "trace_function:<route>"
+    prefix, fixed = "trace_function:", None
+    if (feats["root_is_input"] and not feats["root_is_last_kwarg"]) or (feats["root_is_constant"] and kw):
+        fixed = "trace_function:root-is-leaf"  # the program returns its last slot, which is not the function's result
+    elif used_kw:
+        fixed = "trace_function:op-kwargs"  # op parameters passed by keyword
     try:
         if list(program.inputs) != [s[1] for s in kw]:
             raise Found(prefix + "inputs", "program inputs %s, kwargs %s" % (program.inputs, [s[1] for s in kw]), "program-call", pts[0][0], pts[0][1])
         rej = check_program(program, pts, envs, counters, prefix)
     except Found as f:
+        if fixed and not f.site.startswith("as_code:"):
+            f.site = fixed
         feats.update(f.extra)
         feats["route"] = f.route
         feats["has_array_constant"] = _has_array_constant(program)
+        feats = KNOWN_SITE_FEATURES.get(f.site, feats)
         return core.violation(
             key,
             f.site,
@@ -835,7 +869,11 @@ def check_trace(case, seed):
 
 
 def check(case, seed):
+    import warnings
+
     case = L.tuplify(case)
-    if case[0] in ("expr", "names"):
-        return check_expr(case, seed)
-    return check_trace(case, seed)
+    with np.errstate(all="ignore"), warnings.catch_warnings():
+        warnings.simplefilter("ignore")
+        if case[0] in ("expr", "names"):
+            return check_expr(case, seed)
+        return check_trace(case, seed)
